@@ -89,9 +89,10 @@ def run(ctx, res):
                 if len(samples) < 3:
                     samples.append({"source": longs[0], "newline_sequence": nlseq, "keep_trailing_newline": keep})
     ways = run_env_ways(ctx, res, jinja2)
+    fin = run_finalize(ctx, res, jinja2, plain, longs, raws)
     res.coverage.update({
-        "evaluations": total + ways["evaluations"],
-        "distinct_nontrivial": len({d for d in distinct if d[0]}) + ways["distinct_nontrivial"],
+        "evaluations": total + ways["evaluations"] + fin["evaluations"],
+        "distinct_nontrivial": len({d for d in distinct if d[0]}) + ways["distinct_nontrivial"] + fin["distinct_nontrivial"],
         "rule": (f"every string of length <= {maxlen} over {{a, space, tab, '{{', '%', '#', '}}', LF, CR}} (exhaustive; those in which "
                  "the Lean lexer model finds no start sequence, or only comments/raw blocks), random long texts with Unicode "
                  "line-break look-alikes and control characters, random raw blocks and comments with delimiter look-alikes "
@@ -101,8 +102,9 @@ def run(ctx, res):
                  "(fresh; Template(...); overlays of used parents overriding everything / whitespace options / "
                  "newline_sequence alone / keep_trailing_newline alone / both / delimiters; chains; siblings; parent after its "
                  "overlays); expected text = data tokens of the Lean model with line breaks converted; then environment "
-                 "histories: " + ways["rule"]),
+                 "histories: " + ways["rule"] + "; then environments with a finalize callable: " + fin["rule"]),
         "samples": samples,
+        "finalize_environments": fin,
         "renders_by_way": way_counts,
         "environment_ways": ways,
         "sources_with_cr": sum(1 for d in distinct if "\r" in d[0]),
@@ -178,11 +180,192 @@ def run_env_ways(ctx, res, jinja2):
     return st
 
 
+# ---------------------------------------------------------------------------------------------------------------
+# environments with a finalize callable: finalize post-processes the results of expressions only; template data
+# (plain text, text around comments, raw-block bodies) is never passed through it, so every plain source renders
+# exactly as without finalize, i.e. as the lexer model says
+# ---------------------------------------------------------------------------------------------------------------
+
+def _tf_strip(v):
+    return v.strip() if isinstance(v, str) else v
+
+
+def _tf_upper(v):
+    return v.upper() if isinstance(v, str) else v
+
+
+def _tf_escape(v):
+    from markupsafe import escape
+    return str(escape(v)) if isinstance(v, str) else v
+
+
+def _tf_placeholder(v):
+    """the common 'render None / empty as a dash' finalize; also trims"""
+    if v is None:
+        return "-"
+    if isinstance(v, str):
+        return v.strip() or "-"
+    return v
+
+
+def _tf_wrap(v):
+    return f"[{v}]"
+
+
+TRANSFORMS = {"strip": _tf_strip, "upper": _tf_upper, "escape": _tf_escape, "placeholder": _tf_placeholder, "wrap": _tf_wrap}
+DECORATIONS = ("plain", "pass_context", "pass_eval_context", "pass_environment")
+FIN_WAYS = ("environment-ctor", "overlay-adds-finalize", "template-ctor", "overlay-of-used-replaces-finalize")
+
+
+def make_finalize(jinja2, decoration, transform, calls=None):
+    """a finalize callable with the given calling convention (jinja2.pass_* decoration or none) and effect on strings;
+    every value it is called with is appended to ``calls``"""
+    tf = TRANSFORMS[transform]
+    calls = calls if calls is not None else []
+    if decoration == "plain":
+        def fin(value):
+            calls.append(value)
+            return tf(value)
+        return fin
+
+    def fin2(_first, value):
+        calls.append(value)
+        return tf(value)
+    return getattr(jinja2, decoration)(fin2)
+
+
+def finalize_env(jinja2, way, opts, fin):
+    """an environment with options ``opts`` and finalize ``fin``, reached in one of FIN_WAYS"""
+    if way == "environment-ctor":
+        return jinja2.Environment(finalize=fin, **opts)
+    if way == "overlay-adds-finalize":
+        return _used(jinja2.Environment(**opts)).overlay(finalize=fin)
+    if way == "template-ctor":
+        return jinja2.Template("", finalize=fin, **opts).environment
+    if way == "overlay-of-used-replaces-finalize":
+        return _used(jinja2.Environment(finalize=lambda v: v, **opts)).overlay(finalize=fin)
+    raise ValueError(way)
+
+
+def _used(env):
+    env.from_string("a {# c #} b\n").render()
+    return env
+
+
+def _kind(src, single):
+    return "plain" if single else ("raw" if "raw" in src else "comment")
+
+
+def run_finalize(ctx, res, jinja2, plain, longs, raws):
+    rng = ctx.rng("c11", "finalize")
+    per = ctx.pick(48, 240)
+    fixed = ["  hello\n  world  \n", " \r\n", "", "\n", "  left {# {{ no }} {% no %} #} right  ", "a<b {#- c #} 'q' & \r",
+             "{% raw %}  {{ x }} {# y #} {% z %}  {% endraw %}", " t {%- raw -%} <a> {% endraw %}\n u \n"]
+    defaults = ew.options()
+    combos = [(d, t) for d in DECORATIONS for t in TRANSFORMS]
+    st = {"evaluations": 0, "mismatches": 0, "suppressed_repeats": 0, "model_declined": 0,
+          "finalize_calls_during_plain_renders": 0, "expression_probe_finalized": 0, "expression_probes": 0}
+    by_deco, by_tf, by_way, by_kind, by_trim = {}, {}, {}, {}, {}
+    distinct, alters, per_key, samples = set(), set(), {}, []
+    n, block = 0, 0
+    jobs, reqs = [], []
+    for nlseq in ("\n", "\r\n", "\r"):
+        for keep in (False, True):
+            block += 1
+            for ci, (deco, tname) in enumerate(combos):
+                trim = bool((ci + block) % 2) if ctx.quick else None
+                for tr in ((trim,) if trim is not None else (False, True)):
+                    n += 1
+                    c = lc.cfg(keep_trailing_newline=keep, trim_blocks=tr, lstrip_blocks=tr)
+                    srcs = list(fixed)
+                    for _ in range(per):
+                        r = rng.random()
+                        if r < 0.25:
+                            srcs.append(rng.choice(plain))
+                        elif r < 0.5:
+                            srcs.append(rng.choice(longs))
+                        elif r < 0.75:
+                            srcs.append(rng.choice(raws))
+                        else:
+                            srcs.append(ew.plain_source(rng, defaults))
+                    jobs.append((nlseq, keep, tr, deco, tname, FIN_WAYS[(n + block) % len(FIN_WAYS)], dict(c, newline_sequence=nlseq), srcs, len(reqs)))
+                    reqs += [[Atom("lex-plain"), lc.enc_cfg(c), nlseq, s] for s in srcs]
+    allreps = core.driver_batch(reqs)
+    for jn, (nlseq, keep, tr, deco, tname, way, opts, srcs, r0) in enumerate(jobs):
+        reps = allreps[r0:r0 + len(srcs)]
+        calls = []
+        env = finalize_env(jinja2, way, opts, make_finalize(jinja2, deco, tname, calls))
+        # the generator is not degenerate: this finalize is in effect for expression results
+        st["expression_probes"] += 1
+        try:
+            st["expression_probe_finalized"] += env.from_string("{{ x }}").render(x=" a<b ") == str(TRANSFORMS[tname](" a<b "))
+        except Exception:  # noqa
+            pass
+        del calls[:]
+        for s, rep in zip(srcs, reps):
+            if rep[0] != "ok":
+                st["model_declined"] += 1
+                continue
+            want, single = rep[1], rep[2]
+            c0 = len(calls)
+            try:
+                got = env.from_string(s).render()
+            except Exception as e:  # noqa
+                got = f"raised:{type(e).__name__}:{e}"
+            st["evaluations"] += 1
+            kind = _kind(s, single)
+            case = (s, nlseq, keep, tr, deco, tname)
+            distinct.add(case)
+            # non-trivial: passing the text through this finalize would change the output
+            if want and TRANSFORMS[tname](want) != want:
+                alters.add(case)
+            for d, k in ((by_deco, deco), (by_tf, tname), (by_way, f"{deco}:{way}"), (by_kind, kind), (by_trim, f"trim/lstrip={tr}")):
+                d[k] = d.get(k, 0) + 1
+            if got != want:
+                st["mismatches"] += 1
+                key = f"C11:finalize:{deco}:{kind}"
+                per_key[key] = per_key.get(key, 0) + 1
+                if per_key[key] > 3:
+                    st["suppressed_repeats"] += 1
+                    continue
+                res.violate(key, f"Environment with finalize (@{deco}, effect on strings: {tname}; {way}) "
+                            f"newline_sequence={nlseq!r} keep_trailing_newline={keep} trim/lstrip={tr}: source {s!r} "
+                            f"(no expression in it) renders {got!r}; documented {want!r}; finalize was called with "
+                            f"{calls[c0:][:4]!r}",
+                            {"source": s, "newline_sequence": nlseq, "keep": keep, "trim": tr, "documented": want,
+                             "finalize": {"decoration": deco, "transform": tname, "way": way}})
+        st["finalize_calls_during_plain_renders"] += len(calls)
+        if len(samples) < 4 and jn % 29 == 3:
+            samples.append({"source": srcs[-1], "finalize": f"@{deco}:{tname}", "way": way, "newline_sequence": nlseq})
+    st.update({
+        "distinct_nontrivial": len(alters), "distinct_cases": len(distinct), "by_decoration": by_deco, "by_transform": by_tf,
+        "by_decoration_and_way": dict(sorted(by_way.items())), "by_source_kind": by_kind, "by_trim": by_trim, "violations_by_key": per_key, "samples": samples,
+        "rule": (f"{len(DECORATIONS)} calling conventions (plain, @pass_context, @pass_eval_context, @pass_environment) x "
+                 f"{len(TRANSFORMS)} effects on strings (strip, upper, escape, placeholder-for-empty, wrap) x 3 newline sequences "
+                 "x keep_trailing_newline (x trim/lstrip; quick: alternating), the environment made by Environment(finalize=), "
+                 "overlay(finalize=) of a used environment without / with another finalize, or Template(..., finalize=), in "
+                 f"rotation; per environment {len(fixed)} fixed + {per} random plain sources (short exhaustive strings, long "
+                 "texts, raw blocks / comments with surroundings, multi-part text+comment+raw sources); expected = the Lean "
+                 "lexer model's data tokens with line breaks converted (finalize is for expression results only); a case is "
+                 "non-trivial when applying the finalize's string effect to the expected output would change it"),
+    })
+    return st
+
+
 def replay(ctx, case):
     jinja2 = core.import_jinja()
     c = case["case"]
     if "history" in c:
         return ew.replay_history(jinja2, c)
+    if "finalize" in c:
+        f = c["finalize"]
+        cf = lc.cfg(keep_trailing_newline=c["keep"], trim_blocks=c["trim"], lstrip_blocks=c["trim"])
+        opts = dict(cf, newline_sequence=c["newline_sequence"])
+        calls = []
+        env = finalize_env(jinja2, f["way"], opts, make_finalize(jinja2, f["decoration"], f["transform"], calls))
+        rep = core.driver_batch([[Atom("lex-plain"), lc.enc_cfg(cf), c["newline_sequence"], c["source"]]])[0]
+        return {"render": ew.render(env, c["source"]), "documented": rep, "finalize_called_with": [repr(v) for v in calls],
+                "render_without_finalize": ew.render(jinja2.Environment(**opts), c["source"])}
     cf = lc.cfg(keep_trailing_newline=c["keep"], trim_blocks=c["trim"], lstrip_blocks=c["trim"])
     env = jinja2.Environment(**cf, newline_sequence=c["newline_sequence"])
     rep = core.driver_batch([[Atom("lex-plain"), lc.enc_cfg(cf), c["newline_sequence"], c["source"]]])[0]
